@@ -136,7 +136,7 @@ def run(tier):
     # the same for the image decoders: a second picture decoded in the same process = that picture in a fresh process
     from vf.props import dec
 
-    dec.decoder_history(ctx, ["hrstoppm", "pixtopgm", "maxtoppm", "mgetoppm", "rattoppm", "cm3toppm"])
+    dec.decoder_history(ctx, ["hrstoppm", "pixtopgm", "maxtoppm", "mgetoppm", "mgetoppm:rle", "rattoppm", "cm3toppm"])
     ctx.add_solver_stats(smt.STATS.export())
     ctx.extra["solver"] = {"z3": smt.z3_version()}
     ctx.assume("CPython's hash function is modelled as an arbitrary iteration order of each set (not encoded)")
